@@ -21,7 +21,7 @@ def tables():
         v = ", ".join(f"{p}: {x}" for p, x in sorted(r["props"].items()))
         out.append(f"| {mid} | {r.get('suite') or '-'} | {v} |")
     out.append("\n### Independently seeded changes (`seeded/<id>/`; quick tier, seed 1, of the property each was written against)\n")
-    out.append("Ids: `-1`/`-2` first round, `-3`/`-4` second, `-5`/`-6` third, `-7` fourth, `-8`/`-9` fifth. The second column is the head of the author's own notes.\n")
+    out.append("Ids: `-1`/`-2` first round, `-3`/`-4` second, `-5`/`-6` third, `-7` fourth, `-8`/`-9` fifth, `-10` sixth. The second column is the head of the author's own notes.\n")
     out.append("| id | what it is / what it needs to manifest | verdict |")
     out.append("|---|---|---|")
     n = caught = 0
